@@ -44,7 +44,8 @@ def c01(tier):
 SPEC = dict(
     runs=c01,
     technique="runtime monitoring: generated operator programs through for_each on every worklist policy; a-priori work-closure, "
-              "attempt-tag and loop-epoch oracles; virtual topologies, failpoint delays, over-subscription; logical hang/livelock monitor; ASan/TSan passes",
+              "attempt-tag and loop-epoch oracles; worklist policies also driven directly (push / pop-until-empty rounds) under a conservation "
+              "oracle; virtual topologies, failpoint delays, over-subscription; logical hang/livelock monitor; ASan/TSan passes",
     level_text="Thousands of generated operator programs (fan-out shapes incl. >64 pushes, pushes before/after the acquires, conflict and "
                "voluntary aborts, per-iteration allocation) are run through galois::for_each on every shipped worklist policy and "
                "parameterisation, with and without conflict detection, 1..max threads, on 1-4 socket / uneven / SMT virtual topologies, "
